@@ -51,7 +51,8 @@ def _accepting(fe, v):
 def data_item(sim, fe, it, r, idx):
     name = [net.comp('d'), net.comp(str(idx))]
     dsig = it['dsig']
-    wire = net.data_wire(name, content=b'payload%d' % idx, sig={'none': None, 'digest': 'digest', 'bad': 'baddigest'}[dsig],
+    wire = net.data_wire(name, content=b'payload%d' % idx, sig={'none': None, 'digest': 'digest', 'bad': 'baddigest', 'short': 'shortdigest', 'empty': 'emptydigest',
+                                                                     'long': 'longdigest'}[dsig],
                          freshness=1000)
     supplied = it['validator'] == 'supplied'
     if it.get('by_digest'):
@@ -118,7 +119,7 @@ def data_item(sim, fe, it, r, idx):
                 r.bad(f'C05/v2/data/validation-failure-result/{it["verdict"]}', f'{getattr(vf, "result", None)}')
     else:
         # legacy without a supplied validator: the app-wide data_validator (default digest checker) is in force
-        want = 'ValidationFailure' if dsig == 'bad' else 'data'
+        want = 'ValidationFailure' if dsig in ('bad', 'short', 'empty', 'long') else 'data'
         if label != want:
             r.bad(f'C05/legacy/data/default-validator/{label}/expected={want}', f'dsig={dsig}')
     nontriv = (not supplied) or it['verdict'] not in ('PASS', 'FAIL', True, False) or it['lat'] in ('life', 'life+20')
@@ -146,6 +147,19 @@ def _build_interest(name, it):
             return w[:1] + bytes([w[1] + 1]) + w[2:i] + b'\x24\x01\x00' + w[i + 2:]
         i = w.rindex(target)
         w = w[:i] + bytes([w[i] ^ 0x01]) + w[i + 1:]
+    if dg in ('digest-truncated', 'digest-empty', 'digest-extended'):
+        # the ParametersSha256DigestComponent carries a value of the wrong LENGTH whose bytes agree with the right digest as far as
+        # they go: it is not the digest of the parameters
+        el = T.single(w)
+        kids = T.walk(w, el[2], el[3])
+        nm = kids[0]
+        comps = []
+        for c in T.walk(w, nm[2], nm[3]):
+            v = w[c[2]:c[3]]
+            if c[0] == 2:
+                v = {'digest-truncated': v[:31], 'digest-empty': b'', 'digest-extended': v + b'\x00'}[dg]
+            comps.append(T.enc_tlv(c[0], v))
+        w = T.enc_tlv(5, T.enc_tlv(7, b''.join(comps)) + w[nm[3]:el[3]])
     if dg == 'trailing-unknown':
         # an unrecognised non-critical element appended at the end of the Interest after the digest was computed: the
         # parameters digest covers everything from ApplicationParameters to the END of the Interest, so it is stale now
@@ -360,7 +374,7 @@ def _grid_items(fe):
         # the application expresses, does something else for 30 ms (< lifetime), and only then awaits the result
         yield {'side': 'data', 'validator': 'supplied', 'verdict': v, 'lat': lat, 'dsig': 'digest', 'await_later': True}
         yield {'side': 'data', 'validator': 'supplied', 'verdict': v, 'lat': lat, 'dsig': 'digest', 'by_digest': True}
-    for dsig in ['none', 'digest', 'bad']:
+    for dsig in ['none', 'digest', 'bad', 'short', 'empty', 'long']:
         yield {'side': 'data', 'validator': 'none', 'verdict': None, 'lat': '0', 'dsig': dsig}
     for v1, v2 in itertools.product(verdicts, verdicts):
         if v1 != v2:
@@ -370,7 +384,8 @@ def _grid_items(fe):
     if fe == 'v2':
         rvs += ['RAISE_TIMEOUT', ['slow', 'RAISE_TIMEOUT']]
     for kind in ['plain', 'params', 'params+sig', 'sig']:
-        digs = ['correct'] if kind == 'plain' else ['correct', 'digest-flipped', 'param-flipped', 'missing', 'trailing-unknown']
+        digs = ['correct'] if kind == 'plain' else ['correct', 'digest-flipped', 'param-flipped', 'missing', 'trailing-unknown',
+                                                     'digest-truncated', 'digest-empty', 'digest-extended']
         for dg, rv in itertools.product(digs, rvs):
             base = {'side': 'interest', 'ikind': kind, 'digest': dg, 'route_validator': rv}
             if kind in ('params', 'params+sig') and rv in ('absent', verdicts[0], 'PASS', True):
